@@ -1,7 +1,7 @@
 """Mapper classes kept in a real module file: ``optimize_mapper`` reads the *source text* of the
 class it rewrites.  Used by C05.  (Do not rename the classes: the optimizer looks them up by name.)
 """
-from pymbolic.mapper import CachedIdentityMapper, IdentityMapper
+from pymbolic.mapper import CachedIdentityMapper, CachedWalkMapper, IdentityMapper, WalkMapper
 from pymbolic.primitives import Sum, Variable
 
 
@@ -55,6 +55,21 @@ class RefFlattener(IdentityMapper):
             else:
                 children.append(rec_child)
         return Sum(tuple(children))
+
+class OptWalker(CachedWalkMapper):
+    """A memoizing walker: every handler returns None, so a memo probe that takes None for
+    'not cached' recomputes."""
+
+    def post_visit(self, expr):
+        pass
+
+    def get_cache_key(self, expr):
+        return (type(expr), expr)
+
+
+class RefWalker(WalkMapper):
+    def post_visit(self, expr):
+        pass
 
 # }}}
 
